@@ -4,6 +4,7 @@ C18: the 36 decoder implementation names, written from the documentation of
 `HL` prefix ⇔ horizontal layered.
 -/
 import LdpcV.Model.ArithI8
+import LdpcV.Model.ArithFloat
 namespace LdpcV.Factory
 
 inductive Family where
@@ -64,5 +65,17 @@ def Impl.arith? (i : Impl) : Option Arith :=
   | .minstarapprox, .i8 cfg => some (I8.mkArith false cfg)
   | .aminstar, .i8 cfg => some (I8.mkArith true cfg)
   | _, _ => none
+
+def Family.kind : Family → ArithFloat.Kind
+  | .phi => .phi | .tanh => .tanh | .minstarapprox => .approx | .aminstar => .amin
+
+/-- arithmetic model of EVERY implementation: exact for the 8-bit ones, the generic float formulas at `Float` /
+`Float32` for the others (rounding of the elementary functions is the platform's, so the float models are compared
+with the code numerically, not bit for bit) -/
+def Impl.model (i : Impl) : Arith :=
+  match i.num with
+  | .i8 cfg => I8.mkArith (i.family == .aminstar) cfg
+  | .f64 => ArithFloat.f64Arith i.family.kind
+  | .f32 => ArithFloat.f32Arith i.family.kind
 
 end LdpcV.Factory
